@@ -4,7 +4,8 @@
      v2/parser/parse.go: absorbPkg (endLineToCommentGroup), priorCommentLines, docComment,
                          priorDetachedComment, addCommentsToType
    Comment grouping, positions and CommentGroup.Text() are go/parser's and enter as data.
-   Trailing comment groups are not indexed (fix: commit recorded in KNOWN_FINDINGS.txt). *)
+   Comment groups that share a line with code ("x int // trailing", "/* leading */ x int") are not
+   indexed (fix: commits recorded in KNOWN_FINDINGS.txt); g_trailing is that flag. *)
 Require Import Gengo.Base.Str Gengo.Base.Sexp.
 
 Record group := { g_start : N; g_end : N; g_trailing : bool; g_text : list str }.
@@ -23,12 +24,16 @@ Definition prior (m : list (N * group)) (line n : N) : option group :=
 
 Definition text_of (g : option group) : list str := match g with Some g => g_text g | None => [] end.
 
-Definition deliver (m : list (N * group)) (d : decl) : list str * list str :=
+(* code : the lines of the file that hold code (anything but blank lines and lines holding nothing
+   but comments).  The second-closest block is separated from the doc block -- or, without one,
+   from the declaration -- by one BLANK line (fix: commit recorded in KNOWN_FINDINGS.txt) *)
+Definition has_code (code : list N) (l : N) : bool := existsb (N.eqb l) code.
+Definition anchor (m : list (N * group)) (d : decl) : N :=
+  match prior m (d_line d) 1 with None => d_line d | Some g => g_start g end.
+Definition deliver (m : list (N * group)) (code : list N) (d : decl) : list str * list str :=
   let c1 := prior m (d_line d) 1 in
-  let c2 := match c1 with
-            | None => prior m (d_line d) 2
-            | Some g => prior m (g_start g) 2
-            end in
+  let a := anchor m d in
+  let c2 := if has_code code (a - 1) then None else prior m a 2 in
   (text_of c1, if d_second d then text_of c2 else []).
 
 (* the specification, declaratively *)
@@ -37,7 +42,7 @@ Definition documents (g : group) (line : N) : Prop := g_trailing g = false /\ (g
 (* doc.go: every comment group of the file, in order, is the package's Comments *)
 Definition package_comments (gs : list group) : list str := flat_map g_text gs.
 
-(* entry: ((groups...) (decls...)) -> ((key lines second)...) *)
+(* entry: ((groups...) (decls...) (code lines...)) -> ((key lines second)...) *)
 Definition d_group : dec group := fun x =>
   match x with
   | L [A [a]; A [b]; t; ls] => match dbool t, dlist dstr ls with
@@ -54,11 +59,11 @@ Definition d_decl : dec decl := fun x =>
 Definition norm_lines (l : list str) : list str := match l with [[]] => [] | _ => l end.
 Definition run_comments (inp : sexp) : option sexp :=
   match inp with
-  | L [gs; ds] => match dlist d_group gs, dlist d_decl ds with
-                  | Some gs, Some ds =>
+  | L [gs; ds; cl] => match dlist d_group gs, dlist d_decl ds, dlist dnum cl with
+                  | Some gs, Some ds, Some cl =>
                       let m := index gs in
-                      Some (elist (fun d => let '(c1, c2) := deliver m d in L [A (d_key d); elist estr (norm_lines c1); elist estr (norm_lines c2)]) ds)
-                  | _, _ => None end
+                      Some (elist (fun d => let '(c1, c2) := deliver m cl d in L [A (d_key d); elist estr (norm_lines c1); elist estr (norm_lines c2)]) ds)
+                  | _, _, _ => None end
   | _ => None end.
 Definition run_pkgcomments (inp : sexp) : option sexp :=
   match dlist d_group inp with Some gs => Some (elist estr (package_comments gs)) | None => None end.
